@@ -80,20 +80,20 @@ func checkFilePos(text string, pos, end int) map[string]string {
 	return viol
 }
 
-var fileSyms = []string{"a", "\n", "\r", "\xc3", "\xa9"}
+var fileSyms = []string{"a", "\n", "\r", "\xc3", "\xa9", "%", "\t"}
 
-var errToks = []string{"select", "1", "a", "(", ")", ",", ";", "\n", " \n ", "'x", "from", "+", "\xc3\xa9", "/*c\n*/", "1a", "\r\n"}
+var errToks = []string{"select", "1", "a", "(", ")", ",", ";", "\n", " \n ", "'x", "from", "+", "\xc3\xa9", "/*c\n*/", "1a", "\r\n", "'%d'", "/* 50%\n"}
 
 // C20: error positions resolve to the right line/column/excerpt.
 func C20(r *explore.Run) {
-	r.Rule = "every text over {a,LF,CR,0xC3,0xA9} up to the stated length x every 0<=pos<=end<=len through File.ResolvePos/Position against the reference resolver R6; " +
+	r.Rule = "every text over {a,LF,CR,0xC3,0xA9,%,TAB} up to the stated length, and every byte value at four places of a three-line text, x every 0<=pos<=end<=len through File.ResolvePos/Position against the reference resolver R6; " +
 		"plus every error of every short token string (with newlines and multi-byte characters) through all list/single entry points, lexer and splitter; non-trivial = text with >=1 newline (file part) / input producing an error (error part)"
 	k, n := 6, 3
 	if r.Tier == "thorough" {
 		k, n = 8, 4
 	}
 	r.Explore(explore.Options{Space: "texts x (pos,end)", MaxDev: -1,
-		Bound: fmt.Sprintf("all texts of length<=%d over 5 symbols (%d) x all pos<=end pairs", k, spaces.Count(5, k))}, func(c *explore.Ctx) {
+		Bound: fmt.Sprintf("all texts of length<=%d over %d symbols (%d) x all pos<=end pairs", k, len(fileSyms), spaces.Count(len(fileSyms), k))}, func(c *explore.Ctx) {
 		text := spaces.Str(c, fileSyms, k)
 		c.Input(text)
 		c.Sample(fmt.Sprintf("%q", text))
@@ -109,6 +109,22 @@ func C20(r *explore.Run) {
 		if strings.Contains(text, "\n") {
 			c.Nontrivial(explore.Hash(text))
 		}
+	})
+	r.Explore(explore.Options{Space: "every byte in a three-line text x (pos,end)", MaxDev: -1, SplitLen: 1,
+		Bound: "each of the 256 byte values at the start, inside, at the line end and at the end of a three-line text x all pos<=end pairs"}, func(c *explore.Ctx) {
+		b := string([]byte{byte(c.ChooseFree(256))})
+		text := []string{b + "ab\ncd\nef", "a" + b + "b\nc" + b + "d\nef", "ab" + b + "\ncd" + b + "\nef", "ab\ncd\nef" + b}[c.ChooseFree(4)]
+		c.Input(text)
+		for pos := 0; pos <= len(text); pos++ {
+			for end := pos; end <= len(text); end++ {
+				for sig, d := range checkFilePos(text, pos, end) {
+					c.Violation(sig, fmt.Sprintf("%q pos=%d end=%d", text, pos, end), d)
+				}
+				c.Count("pos_end_pairs", 1)
+			}
+		}
+		c.OutcomeStr(text)
+		c.Nontrivial(explore.Hash(text))
 	})
 	r.Explore(explore.Options{Space: "errors of token strings", MaxDev: -1,
 		Bound: fmt.Sprintf("all sequences of <=%d of %d tokens joined by a blank, through ParseStatements/ParseExpr/ParseDDL/SplitRawStatements/Lexer", n, len(errToks))}, func(c *explore.Ctx) {
